@@ -16,6 +16,8 @@ package linking
 //@ interface datamodel.Link.Binary() (r)
 //@   assigns[C20] nothing
 //@   ensures r == lbin(recv.lid)
+//@ interface datamodel.Link.String() (r)
+//@   assigns nothing
 //@ interface datamodel.Link.Prototype() (lp)
 //@   assigns[C20] nothing
 //@   ensures lp != nil && lp == protoOf(recv.lid)
